@@ -25,6 +25,22 @@ fn main() {
             "escape_default" => Some(a.escape_default().to_string()),
             "escape_debug" => Some(a.escape_debug().to_string()),
             "debug" => Some(format!("{a:?}")),
+            // std string operations whose Unicode tables differ from Python's: answered by the real std
+            "trim" => Some(a.trim().to_string()),
+            "trim_start" => Some(a.trim_start().to_string()),
+            "trim_end" => Some(a.trim_end().to_string()),
+            "to_lowercase" => Some(a.to_lowercase()),
+            "to_uppercase" => Some(a.to_uppercase()),
+            "lines" => Some(a.lines().collect::<Vec<_>>().join("\u{0}")),
+            "lines_count" => Some(a.lines().count().to_string()),
+            "split_whitespace" => Some(a.split_whitespace().collect::<Vec<_>>().join("\u{0}")),
+            "split_whitespace_count" => Some(a.split_whitespace().count().to_string()),
+            "charclass" => a.chars().next().map(|c| {
+                let flags = [
+                    c.is_alphabetic(), c.is_numeric(), c.is_alphanumeric(), c.is_whitespace(), c.is_uppercase(), c.is_lowercase(), c.is_control(),
+                ];
+                flags.iter().map(|f| if *f { '1' } else { '0' }).collect()
+            }),
             _ => None,
         };
         match r {
